@@ -390,7 +390,28 @@ def _strip(interp, s, chars, left, right):
     st = interp.st
     t = _s(s)
     if chars is None:
-        raise Unsupported('strip() of Unicode white space (bounded stand-in only)')
+        # white space = the characters for which isspace() holds (an uninterpreted predicate here):
+        # s == a . r . b, a and b are white space only, r neither starts (left) nor ends (right) with one
+        kind = ('l' if left else '') + ('r' if right else '')
+        f = z3.Function('str.%sstrip[ws]' % {'lr': '', 'l': 'l', 'r': 'r'}[kind], z3.StringSort(), z3.StringSort())
+        sp = z3.Function('str.isspace', z3.StringSort(), z3.BoolSort())
+        r = f(t)
+        key = ('__strip__', kind, None, t.get_id())
+        if key not in st.ghost:
+            st.ghost[key] = t
+            a = _fresh(interp, 'strip.l') if left else z3.StringVal('')
+            b = _fresh(interp, 'strip.r') if right else z3.StringVal('')
+            st.assume(t == _cat([a, r, b]))
+            st.assume(z3.Not(sp(z3.StringVal(''))))
+            if left:
+                st.assume(z3.Or(a == z3.StringVal(''), sp(a)))
+                st.assume(z3.Or(r == z3.StringVal(''), z3.Not(sp(z3.SubString(r, 0, 1)))))
+            if right:
+                st.assume(z3.Or(b == z3.StringVal(''), sp(b)))
+                st.assume(z3.Or(r == z3.StringVal(''), z3.Not(sp(z3.SubString(r, z3.Length(r) - 1, 1)))))
+            _decomps(interp, t).append([x for x in (a, r, b) if not (z3.is_string_value(x) and x.as_string() == '')])
+            note_concat(interp, t, [a, r, b])
+        return wrap(r)
     if isinstance(chars, Sym) or not chars:
         raise Unsupported('strip with symbolic character set')
     kind = ('l' if left else '') + ('r' if right else '')
@@ -447,6 +468,16 @@ def call_method(interp, recv, name, args, kwargs):
     if name in ('split', 'rsplit'):
         sep = args[0] if args else kwargs.get('sep')
         maxsplit = args[1] if len(args) > 1 else kwargs.get('maxsplit', -1)
+        if sep is not None and isinstance(maxsplit, int) and maxsplit == -1 and isinstance(sep, str) and sep != '':
+            # all splits: a sequence of strings of unknown contents (weak model); its length is
+            # count(sep) + 1 for a single-character separator, at least 1 otherwise
+            from .api import ListOf, Str as _Str
+            out = ListOf(_Str, min_len=1).make(interp, 'split')
+            if len(sep) == 1:
+                f = count_fn(interp, sep)
+                _count_facts(interp, f, sep, t)
+                interp.st.assume(out.length == f(t) + 1)
+            return out
         if sep is None or maxsplit != 1:
             raise Unsupported('str.%s without separator or with maxsplit != 1' % name)
         found, a, b = _split_once(interp, recv, sep, reverse=(name == 'rsplit'))
@@ -576,6 +607,9 @@ def int_of_str(interp, s):
 def join_slist(interp, sep, xs):
     """sep.join(xs) for a sequence of symbolic length.
 
+    If the calling function has a loop spec 'join#k' for this join (M.loop(qname, 'join#k', ...)), the join is
+    interpreted from the Python model pyvc/pymodels/str_model.py with that invariant (loops.join_slist).  Otherwise:
+
     The sequence is taken in its structural normal form (pieces: single elements and base
     sequences, see seqs.parts_of).  The join of a *base* sequence b is an uninterpreted string
     J(sep, b) -- a function of the (immutable) sequence, named by its uid -- about which only
@@ -583,8 +617,11 @@ def join_slist(interp, sep, xs):
     composed from the joins of its pieces by the law
         join(x ++ y) = join(y) if x is empty, join(x) if y is empty, else join(x) + sep + join(y)
     which holds of Python's str.join for every x, y."""
-    from . import seqs, models
+    from . import seqs, models, loops
     from .interp import PyRaise
+    r = loops.join_slist(interp, sep, xs)
+    if r is not NotImplemented:
+        return r
     st = interp.st
     if not isinstance(sep, str):
         raise Unsupported('str.join over symbolic-length sequence with symbolic separator')
